@@ -3,6 +3,7 @@ package main
 import (
 	"fmt"
 	"go/token"
+	"sort"
 	"strings"
 
 	"golang.org/x/tools/go/ssa"
@@ -30,7 +31,7 @@ func isFieldOfValue(v ssa.Value, owner, field string) bool {
 func runC20(c *Ctx) {
 	p := c.P
 	const P = "C20"
-	c.rule(P, "signal", "sends on Task.ResultChan carry the result of that task's Execute; unexecuted tasks are resolved by close; SubmitWait's not-executed signal comes only from Submit==nil or a closed channel", 3)
+	c.rule(P, "signal", "sends on Task.ResultChan carry the result of that task's Execute; unexecuted tasks are resolved by close; SubmitWait's not-executed signal comes only from Submit==nil or a closed channel", 2)
 	c.rule(P, "once", "worker: one Execute per received task, result sent on the cap-1 channel; Execute called nowhere else", 3)
 	c.rule(P, "fallback", "ExecuteWithWorker calls task() itself exactly when SubmitWait reports not-executed", 1)
 	c.rule(P, "drain", "functions that cancel the workers and close/replace the queue resolve every task left in it", 2)
@@ -221,8 +222,17 @@ func runC20(c *Ctx) {
 
 	// --- drain: functions that call cancel and close(taskQueue) (directly or via Stop)
 	stop := p.Fn("(*WorkerPool).Stop")
-	if stop == nil {
-		c.undecided(P, "drain", "fn=Stop", "", "not found")
+	// stoppers: the functions whose body (or function literal) closes the pool's current queue
+	stoppers := map[*ssa.Function]bool{}
+	for _, fn := range p.SrcFuncs {
+		for _, call := range calls(fn) {
+			if bi, ok := call.Common().Value.(*ssa.Builtin); ok && bi.Name() == "close" && isFieldOfValue(call.Common().Args[0], "WorkerPool", "taskQueue") {
+				stoppers[rootFn(fn)] = true
+			}
+		}
+	}
+	if stop == nil || len(stoppers) == 0 {
+		c.undecided(P, "drain", "fn=Stop", "", "no function closes WorkerPool.taskQueue")
 	} else {
 		drains := func(fn *ssa.Function) bool {
 			// receives from the queue (range/recv) and closes or re-sends each task
@@ -255,11 +265,26 @@ func runC20(c *Ctx) {
 			}
 			return recv && resolve
 		}
-		if drains(stop) {
-			c.ok(P, "drain", "fn=(*WorkerPool).Stop", p.pos(stop.Pos()), "Stop drains and resolves queued tasks itself")
-		} else {
-			for _, cs := range p.callers[stop] {
-				key := "caller=" + fnKey(cs.Caller) + " of Stop"
+		var ss []*ssa.Function
+		for s := range stoppers {
+			ss = append(ss, s)
+		}
+		sort.Slice(ss, func(i, j int) bool { return fnKey(ss[i]) < fnKey(ss[j]) })
+		for _, s := range ss {
+			if drains(s) {
+				c.ok(P, "drain", "fn="+fnKey(s), p.pos(s.Pos()), "drains and resolves queued tasks itself")
+				continue
+			}
+			if len(p.callers[s]) == 0 {
+				c.bad(P, "drain", "fn="+fnKey(s), p.pos(s.Pos()), fnKey(s)+" stops the pool but nobody drains the queue: tasks accepted by Submit and still queued are never executed and their result channels are never written or closed, so their submitters wait forever in SubmitWait")
+			}
+			seenCaller := map[string]bool{}
+			for _, cs := range p.callers[s] {
+				key := "caller=" + fnKey(cs.Caller) + " of " + s.Name()
+				if seenCaller[key] {
+					continue
+				}
+				seenCaller[key] = true
 				c.verdictIf(drains(cs.Caller), P, "drain", key, p.instrPos(cs.Instr), "caller drains the old queue and resolves each task",
 					fnKey(cs.Caller)+" stops the pool but nobody drains the queue: tasks accepted by Submit and still queued are never executed and their result channels are never written or closed, so their submitters wait forever in SubmitWait")
 			}
@@ -267,6 +292,44 @@ func runC20(c *Ctx) {
 	}
 
 	// --- close-race
+	// locks held exclusively at every close of the current queue (helpers inherit their callers' locks)
+	stateWithParent := func(fn *ssa.Function, in ssa.Instruction) lockState {
+		st := lockState{}
+		for id, m := range li.stateAt(in) {
+			st[id] = m
+		}
+		if fn.Parent() != nil {
+			for _, cs := range p.callers[fn] {
+				for id, m := range li.stateAt(cs.Instr) {
+					st[id] = m
+				}
+			}
+		}
+		return st
+	}
+	var closeClasses map[string]bool
+	for _, fn := range p.SrcFuncs {
+		for _, call := range calls(fn) {
+			if bi, ok := call.Common().Value.(*ssa.Builtin); !ok || bi.Name() != "close" || !isFieldOfValue(call.Common().Args[0], "WorkerPool", "taskQueue") || !isDirectFieldLoad(call.Common().Args[0]) {
+				continue
+			}
+			cur := map[string]bool{}
+			for id, m := range stateWithParent(fn, call) {
+				if m == 'W' {
+					cur[id.Class] = true
+				}
+			}
+			if closeClasses == nil {
+				closeClasses = cur
+			} else {
+				for k := range closeClasses {
+					if !cur[k] {
+						delete(closeClasses, k)
+					}
+				}
+			}
+		}
+	}
 	n := 0
 	for _, fn := range p.SrcFuncs {
 		for _, b := range fn.Blocks {
@@ -295,19 +358,20 @@ func runC20(c *Ctx) {
 					continue
 				}
 				n++
-				st := li.stateAt(in)
 				// closures (Stop's func literal) run synchronously inside the critical section: use the state at their call site
-				if fn.Parent() != nil {
-					for _, cs := range p.callers[fn] {
-						for id, m := range li.stateAt(cs.Instr) {
-							st[id] = m
-						}
-					}
-				}
+				st := stateWithParent(fn, in)
 				held := byte(0)
 				for id, m := range st {
 					if id.Class == "WorkerPool.closeMu" {
 						held = m
+					}
+				}
+				if isSend && held == 0 {
+					// any other lock that every close of the current queue holds exclusively excludes the close as well
+					for id, m := range st {
+						if closeClasses[id.Class] {
+							held = m
+						}
 					}
 				}
 				kind := "send"
@@ -370,7 +434,7 @@ func runC20(c *Ctx) {
 				// a Stop call must dominate
 				dom := false
 				for _, c2 := range calls(rz) {
-					if staticCallee(c2) == stop && (c2.Block().Dominates(cs.Block()) || reachAvoiding([]*ssa.BasicBlock{c2.Block()}, nil, nil)[cs.Block()]) {
+					if callee := staticCallee(c2); callee != nil && (callee == stop || stoppers[callee]) && (c2.Block().Dominates(cs.Block()) || reachAvoiding([]*ssa.BasicBlock{c2.Block()}, nil, nil)[cs.Block()]) {
 						dom = true
 					}
 				}
@@ -434,3 +498,13 @@ func closesLocalCopy(in ssa.Instruction) bool {
 }
 
 var _ = strings.Contains
+
+// isDirectFieldLoad: v is `*(&x.f)` computed in place (not a saved copy, parameter or captured variable).
+func isDirectFieldLoad(v ssa.Value) bool {
+	u, ok := v.(*ssa.UnOp)
+	if !ok || u.Op != token.MUL {
+		return false
+	}
+	_, isFA := u.X.(*ssa.FieldAddr)
+	return isFA
+}
